@@ -296,6 +296,7 @@ func (tr *trans) atAsserts(in ssa.Instruction, st State) {
 		tr.assertDone[key] = true
 		tr.assertBound[i] = true
 		env := tr.funcEnv(st)
+		tr.currentParams(env)
 		blk := tr.curB
 		cur := in
 		env.lookup = func(name string) (SV, bool) {
